@@ -294,6 +294,11 @@ class Agent(dbus.service.Object):
         :return: True to continue listening.
         '''
         newsock, fromaddr = bindsock.accept()
+        if self._in_shutdown:
+            # nobody would ever terminate this contact
+            self._logger.info('Refusing connection during shutdown')
+            newsock.close()
+            return True
         self._logger.info('Connecting')
         hdl = self._bind_handler(
             config=self._config, sock=newsock, fromaddr=fromaddr)
